@@ -49,12 +49,15 @@ def bounds(tier):
                 groups="non-nested capture groups, possibly empty or around a starred atom",
                 ranges="every (pos,endpos) in [0,n+1]^2 for the grid kinds up to the grid length; "
                        "(0,None),(1,None),(0,n-1),(1,n) for the remaining kinds and lengths",
+                repeats="10 literal heads (incl. self-overlapping ones and the kit sites) x 8 continuations on every target over the head's letters + 1 up to length 6-7 (7-9)",
+                codes_in_context="each of the 15 codes in 8 pattern shapes x all ACGT targets (both cases) up to length 3 (4)",
+                long_targets="4 kit-style structures on targets of 300..1500 (6000) letters: homopolymer, dinucleotide repeat, aperiodic; 6 rotations",
                 kit_structures="all concrete kit classes x 2 fills x 2 star lengths x all rotations")
 
 
 def goals(tier):
     return ["letter-table-complete", "group-crosses-origin", "group-wholly-past-end", "lazy-star", "greedy-star",
-            "linear-no-wrap-candidate", "no-match", "kit-structure-wraps", "range-excludes-first-match"]
+            "linear-no-wrap-candidate", "no-match", "kit-structure-wraps", "range-excludes-first-match", "codes-in-context", "long-target", "self-overlapping-literal-head"]
 
 
 # ---------------------------------------------------------------------------------------------
@@ -204,6 +207,11 @@ def units(tier):
     cls = gen.kit_classes()
     for i in range(0, len(cls), 6):
         us.append(("kit", [c.__name__ for c in cls[i:i + 6]]))
+    for code in sorted(rm.IUPAC):
+        us.append(("context", code))
+    for h in range(len(REPEAT_HEADS)):
+        us.append(("repeats", h))
+    us.append(("long", None))
     return us
 
 
@@ -232,6 +240,12 @@ def run_unit(unit, st, tier):
     elif kind == "kit":
         for name in arg:
             unit_kit(st, name)
+    elif kind == "context":
+        unit_context(st, arg, tier)
+    elif kind == "repeats":
+        unit_repeats(st, arg, tier)
+    elif kind == "long":
+        unit_long(st, tier)
 
 
 def unit_letters(st):
@@ -334,6 +348,83 @@ def run_pattern(st, p, tg, band):
             st.sample(dict(pattern=p, target=s, kind="circularrecord", pos=0, endpos=None))
 
 
+def unit_context(st, code, tier):
+    """every IUPAC code next to wildcards and inside groups, on every target over the full ACGT alphabet (both cases) up to
+    length 3 (4 in thorough), linear and circular, default range and every start"""
+    pats = [code, "N*" + code, code + "N*", "(" + code + ")N*?" + code, code + "*", "(N*?)" + code + "(N*)", "A" + code + "?T", "(" + code + code + ")"]
+    maxlen = 3 if tier == "quick" else 4
+    tg = []
+    for n in range(1, maxlen + 1):
+        for t in itertools.product("ACGT", repeat=n):
+            tg.append("".join(t))
+    tg += [t.lower() for t in tg if len(t) <= 2] + ["aCgT", "TtTt", "gGcC"]
+    band = dict(grid_kinds=["seq-linear", "circularrecord"], grid_len=2)
+    for p in pats:
+        run_pattern(st, p, tg, band)
+    st.goal("codes-in-context")
+    st.sample(dict(pattern=pats[3], target="ACGT", kind="circularrecord", pos=0, endpos=None))
+
+
+REPEAT_HEADS = ["AA", "AAA", "CC", "ACA", "ACAC", "AACAA", "CGTCTC", "GAGACG", "GGTCTC", "GAAGAC"]
+REPEAT_TAILS = ["C", "G", "R", "(NN)", "N*G", "B", "(N*?)C", "NC"]
+
+
+def unit_repeats(st, h, tier):
+    """literal heads (some of which overlap themselves) followed by a continuation that can fail, on EVERY target over the
+    head's letters plus one more, so that overlapping candidate starts are all exercised"""
+    head = REPEAT_HEADS[h]
+    letters = sorted(set(head) | {"G" if "G" not in head else "T"})
+    maxlen = (7 if len(letters) <= 2 else 6) if tier == "quick" else (9 if len(letters) <= 2 else 7)
+    if len(head) >= 5:
+        # long heads: targets are built from the head's own overlaps instead of all strings
+        tg = set()
+        for k in range(1, len(head)):
+            if head[:k] == head[-k:] or True:
+                for tail in ("", "A", "C", "G", "T", "AC", "GT"):
+                    for pre in ("", "A", "T", head[:k]):
+                        tg.add(pre + head[:-k] + head + tail)
+                        tg.add(pre + head + head[k:] + tail)
+        tg = sorted(t for t in tg if len(t) <= 22)
+    else:
+        tg = []
+        for n in range(1, maxlen + 1):
+            for t in itertools.product(letters, repeat=n):
+                tg.append("".join(t))
+    band = dict(grid_kinds=[], grid_len=0)
+    for tail in REPEAT_TAILS:
+        run_pattern(st, head + tail, tg, band)
+    st.goal("self-overlapping-literal-head")
+    st.sample(dict(pattern=head + REPEAT_TAILS[0], target=tg[-1], kind="seq-linear", pos=0, endpos=None))
+
+
+def unit_long(st, tier):
+    """sizes: module structures searched on long targets (homopolymer, repeats, aperiodic; 300 .. 6000 letters) at a handful
+    of rotations -- the backtracking reference matcher is linear here because the literals anchor the match"""
+    pats = ["GGTCTCN(NNNN)(NN*N)(NNNN)NGAGACC", "N(NNNN)(NGAGACCN*GGTCTCN)(NNNN)N", "CGTCTCN(NNGG)(TCTCNNNNNN*?NNNNNGA)(GACC)NGAGACG",
+            "GAAGACNN(NNNN)(NN*?N)(NNNN)NNGTCTTC"]
+    sizes = [300, 1500] if tier == "quick" else [300, 1500, 6000]
+    for p in pats:
+        rx = DNARegex(p)
+        mt = rm.Matcher(p)
+        inst, _ = gen.instantiate(p, fill_scheme=0, star_len=4)
+        for size in sizes:
+            for filler in ("A" * size, "AT" * (size // 2), gen.long_word(size, seed=size, forbid=["GGTCTC", "CGTCTC", "GAAGAC"])):
+                # filler goes both inside the starred region (by re-instantiating) and outside as backbone
+                big, _ = gen.instantiate(p, fill_scheme=1, star_text=filler)
+                for s in (inst + filler, big + "ACGTAC"):
+                    n = len(s)
+                    for r in sorted({0, 1, 5, n // 2, n - 7, n - 1}):
+                        t = rm.rot_right(s, r)
+                        ref = mt.search(t, True)
+                        m = rx.search(CircularRecord(Seq(t), id="L"))
+                        compare(st, "long", dict(pattern=p, target=t if n < 400 else None, kind="circularrecord", pos=0, endpos=None, size=n, rotation=r,
+                                                 filler=filler[:8], build="inst+filler" if s.startswith(inst) else "filler-in-star"), m, ref, n)
+                        st.scenario("long-match" if ref else "long-none", None)
+                        st.nontrivial += 1
+                        st.goal("long-target")
+    st.sample(dict(pattern=pats[0], kind="circularrecord", size=sizes[-1], rotation=5))
+
+
 def kit_instances(cls):
     """(text, label) instances of the class structure: 2 fills, 2 star lengths."""
     struct = cls.structure()
@@ -371,6 +462,9 @@ def unit_kit(st, name):
 
 
 def replay(scn, sub, st):
+    if sub == "long":
+        unit_long(st, "quick")
+        return
     p, s, kind = scn["pattern"], scn["target"], scn["kind"]
     rx = DNARegex(p)
     mt = rm.Matcher(p)
